@@ -28,6 +28,12 @@ def run(rep, fb, tier):
     from ..rules import pyrules as _pr5
     _pr5.rule_py_call_shape(rep)
     _pr5.rule_py_dead_attr(rep)
+    _pr5.rule_py_record_field_trim(rep)
+    _pr5.rule_py_enumerate_index(rep)
+    _pr5.rule_py_form_parameters(rep)
+    _pr5.rule_py_scatter_size(rep)
+    _pr5.rule_py_arrow_option_wrap(rep)
+    _pr5.rule_py_filtered_concatenate(rep)
     _pr5.rule_py_isinstance_shadow(rep)
     _pr5.rule_py_none_guard(rep)
     rep.units = fb.units + ["src/awkward/operations/convert.py, highlevel.py, _util.py, partition.py (ast)"]
